@@ -19,6 +19,14 @@ TRUSTED = ["SV.PyOp / SV.PyMode (Model/Discretise.lean) as the meaning of Python
            "Model/C08.lean: list-level model of .sum(dim)/.mean(dim) (skipna) and of the threshold loop of binary_discretise",
            "xarray broadcasting / reductions (compared, not modelled beyond flattening)"]
 ASSUMPTIONS = ["data, thresholds and tolerances are dyadic (k/4) so every comparison and threshold±tolerance is exact in float64",
+               "the classification is a function of the VALUES, not of their storage: data stored as int64 / int32 / int8 / uint8 / bool / "
+               "float32 (exactly representable values; thresholds mostly NOT representable in that dtype: k+1/2, -1/2, 0.1 for float32) "
+               "are compared with the exact-rational model / spec value of the same numbers; float32 neighbours of a non-dyadic threshold "
+               "are used only where no comparison is decided by float64 rounding (guard: rounding-sensitive-skipped)",
+               "data AND comparison DataArray both stored in one narrow integer / bool dtype: out-of-range intermediates inside "
+               "comparative_discretise are the candidate defect N-C08-2 (notes/C08.md; tagged, generated in their own batch); "
+               "float32 forecasts against a Python-float event threshold stay dyadic (numpy weak-scalar promotion of the caller's own "
+               "op_fn, N-C08-3)",
                "+inf / -inf are valid, comparable values: contingency counts (theorems hold for every Fl) and the order relations / unequal "
                "values of discretisation (theorem disc_eq_specX, Spec.discX) cover them; only '==' / '!=' between two EQUAL infinities "
                "is outside the property's domain (notes/C08.md N-C08-1; model and implementation are still compared on it)",
@@ -47,7 +55,10 @@ MANIFEST = dict(
     design="6/C08")
 RULE = ("cases drawn from a dyadic pool with 50 % of data values placed on / within / just outside tolerance of a threshold, "
         "NaN in every slot, +inf / -inf among data, discretisation thresholds, forecasts, observations (half of the table cases) and "
-        "event thresholds (order relations only), all 12 mode spellings, thresholds 0 and negative for the event operator; distinct = distinct "
+        "event thresholds (order relations only), all 12 mode spellings, thresholds 0 and negative for the event operator; the same functions "
+        "and both contingency-manager routes on data stored as int64 / int32 / int8 / uint8 / bool / float32 (values exactly representable, "
+        "incl. the dtype's extremes and the float32 neighbours of 0.1 / 0.3 / 0.7) with thresholds not representable in the dtype and "
+        "every tolerance, plus a 6 dtypes x 12 spellings x 2 tolerances grid; distinct = distinct "
         "canonical input; non-trivial = at least one non-NaN output and not in the malformed stream")
 
 STR2OP = {">=": "ge", ">": "gt", "<=": "le", "<": "lt", "==": "eq", "!=": "ne"}
@@ -87,15 +98,16 @@ def as_num(x):
     return float(x)
 
 
-def run_disc(fn_name, data, comp, mode, tol, scalar_comp=False):
-    """call the real discretisation; returns ('ok', matrix[data][comp]) | ('err', class)"""
+def run_disc(fn_name, data, comp, mode, tol, scalar_comp=False, dtype=None, cdtype=None):
+    """call the real discretisation; returns ('ok', matrix[data][comp]) | ('err', class).
+    dtype: storage dtype of `data` (default float64); cdtype: storage dtype of a DataArray comparison (default float64)"""
     from scores.processing import binary_discretise, comparative_discretise
-    d = xr.DataArray(np.array(data, dtype=float), dims=[fresh("x")])
+    d = xr.DataArray(np.array(data, dtype=dtype or float), dims=[fresh("x")])
     kw = {} if tol == "omit" else {"abs_tolerance": tol}
     try:
         with np.errstate(all="ignore"):
             if fn_name == "comparative":
-                c = comp[0] if scalar_comp else xr.DataArray(np.array(comp, dtype=float), dims=[fresh("c")])
+                c = comp[0] if scalar_comp else xr.DataArray(np.array(comp, dtype=cdtype or float), dims=[fresh("c")])
                 out = comparative_discretise(d, c, py_mode(mode), **kw)
                 if scalar_comp:
                     out = out.expand_dims("c", axis=-1)
@@ -222,7 +234,11 @@ def run_disc_case(case):
     comp = list(case["comp"])
     if case["scalar"] and float(comp[0]).is_integer() and case.get("int_scalar"):
         comp = [int(comp[0])]
-    return run_disc(case["fn"], case["data"], comp, case["mode"], case["tol"], case["scalar"])
+    if case.get("int_thr") and not case["scalar"]:
+        # integral thresholds handed over as Python ints (np.array([0, 1, 3]) is int64, a mixed list float64)
+        comp = [int(t) if float(t).is_integer() else t for t in comp]
+    return run_disc(case["fn"], case["data"], comp, case["mode"], case["tol"], case["scalar"],
+                    dtype=case.get("dtype"), cdtype=case.get("cdtype"))
 
 
 def gen_pairs(rng, binary=False, inf_ok=True):
@@ -257,9 +273,9 @@ def gen_pairs(rng, binary=False, inf_ok=True):
     return f, o, obs_1d, thr
 
 
-def xr_pairs(f, o, obs_1d):
-    fx = xr.DataArray(np.array(f, dtype=float), dims=[fresh("a"), fresh("b")])
-    ox = xr.DataArray(np.array(o, dtype=float), dims=[fresh("b")] if obs_1d else [fresh("a"), fresh("b")])
+def xr_pairs(f, o, obs_1d, fdtype=None, odtype=None):
+    fx = xr.DataArray(np.array(f, dtype=fdtype or float), dims=[fresh("a"), fresh("b")])
+    ox = xr.DataArray(np.array(o, dtype=odtype or float), dims=[fresh("b")] if obs_1d else [fresh("a"), fresh("b")])
     return fx, ox
 
 
@@ -298,7 +314,7 @@ def gen_table_case(rng):
 def run_table_case(case):
     """returns dict with events, maps, counts from the implementation, or ('err', class)"""
     from scores.categorical import BinaryContingencyManager, ThresholdEventOperator
-    fx, ox = xr_pairs(case["f"], case["o"], case["obs_1d"])
+    fx, ox = xr_pairs(case["f"], case["o"], case["obs_1d"], case.get("fdtype"), case.get("odtype"))
     teo = ThresholdEventOperator(default_event_threshold=case["dthr"], default_op_fn=getattr(operator, case["dop"])) \
         if case["custom"] else ThresholdEventOperator()
     kw = {}
@@ -367,6 +383,19 @@ def py_count(case):
     return c
 
 
+def table_desc(case):
+    """what a replay needs (storage dtypes only when they are not the default float64)"""
+    d = {k: case[k] for k in ("f", "o", "obs_1d", "thr", "op", "dthr", "dop", "custom")}
+    d.update({k: case[k] for k in ("fdtype", "odtype") if case.get(k)})
+    return d
+
+
+def disc_desc(c):
+    d = {k: c[k] for k in ("fn", "data", "comp", "mode", "tol", "scalar")}
+    d.update({k: c[k] for k in ("dtype", "cdtype", "int_thr", "int_scalar") if c.get("dtype") and c.get(k)})
+    return d
+
+
 def table_tags(case):
     t = {"op": case["op"] or "default", "thr": "none" if case["thr"] is None else
          ("zero" if case["thr"] == 0 else "negative" if case["thr"] < 0 else "positive")}
@@ -377,14 +406,320 @@ def table_tags(case):
     elif any(math.isinf(v) for v in sum(case["f"], [])) or \
             any(math.isinf(v) for v in (case["o"] if case["obs_1d"] else sum(case["o"], []))):
         t["infinite"] = "data"
+    if case.get("fdtype") or case.get("odtype"):
+        t["dtype"] = (case.get("fdtype") or "float64") + "/" + (case.get("odtype") or "float64")
     return t
+
+
+# ----------------------------------------------------------------------------- storage dtype of the data
+# The relation between a VALUE and a threshold does not depend on how the value is stored: int64 7, float32 7 and
+# float64 7 are all the number 7 (the Lean model / spec work on exact rationals, the model value of an int64 7 is 7).
+DTYPES = ["int64", "int32", "int8", "uint8", "bool", "float32"]
+INT_RANGE = {"int64": (-6, 8), "int32": (-6, 8), "int8": (-6, 8), "uint8": (0, 8), "bool": (0, 1)}
+DT_LIMITS = {"int64": (-2 ** 63, 2 ** 63 - 1), "int32": (-2 ** 31, 2 ** 31 - 1), "int8": (-128, 127), "uint8": (0, 255), "bool": (0, 1)}
+# extreme members that are still exact in float64 (an int64 is compared with a float threshold in float64)
+EXTREMES = {"int64": [2 ** 40, -2 ** 40], "int32": [2 ** 31 - 1, -2 ** 31], "int8": [-128, 127], "uint8": [255, 200]}
+F32_ODD = [0.1, 0.3, -0.1, 0.7, 2.1]           # neither float32 numbers nor dyadic
+
+
+def f32(x):
+    return float(np.float32(x))
+
+
+def f32_next(x, up):
+    return float(np.nextafter(np.float32(x), np.float32(math.inf if up else -math.inf)))
+
+
+def gen_dtype_thresholds(rng, dt, nthr, narrow):
+    lo, hi = INT_RANGE.get(dt, (-3, 3))
+    thr = []
+    for _ in range(nthr):
+        r = rng.random()
+        if dt == "float32":
+            thr.append(rng.choice(F32_ODD) if (r < 0.7 and not narrow) else core.dyadic(rng, -3, 3))
+        elif narrow or r >= 0.75:
+            thr.append(float(rng.randint(lo, hi)))                                  # representable in dt
+        elif r < 0.12 and dt in ("uint8", "bool"):
+            thr.append(float(rng.choice([-1, -2, 2 if dt == "bool" else -3])))      # integer, but outside the dtype
+        elif dt == "bool":
+            thr.append(rng.choice([0.5, 0.5, -0.5, 0.25, 0.75, 1.5]))
+        else:
+            thr.append(rng.randint(lo - 1, hi) + rng.choice([0.5, 0.5, 0.5, 0.25, 0.75]))   # k+1/2 ... incl. -0.5, 2.5
+    return sorted(thr)
+
+
+def gen_dtype_values(rng, dt, n, thr, tv, nan_ok=True):
+    """n values exactly representable in dt, half of them on / next to / a tolerance away from a threshold"""
+    out = []
+    if dt == "float32":
+        for _ in range(n):
+            r = rng.random()
+            c = rng.choice(thr)
+            if r < 0.55 and (c * 4).is_integer():
+                out.append(c + rng.choice([0, tv, -tv, tv + 0.25, -tv - 0.25, tv - 0.25, -tv + 0.25, 0.25, -0.25]))
+            elif r < 0.55:
+                # the float32 neighbours of a threshold that is not a float32 number: the data lie strictly on one side
+                out.append(rng.choice([f32(c), f32(c), f32_next(c, True), f32_next(c, False), f32(c + tv), f32(c - tv),
+                                       round(c * 4) / 4]))
+            elif r < 0.70 and nan_ok:
+                out.append(NAN)
+            else:
+                out.append(core.dyadic(rng, -4, 4))
+        return out
+    lo, hi = INT_RANGE[dt]
+    dlo, dhi = DT_LIMITS[dt]
+    for _ in range(n):
+        r = rng.random()
+        v = None
+        if r < 0.55:
+            c = rng.choice(thr)
+            cand = [math.floor(c), math.ceil(c), math.floor(c - tv), math.ceil(c - tv), math.floor(c + tv), math.ceil(c + tv),
+                    math.floor(c - tv) - 1, math.ceil(c + tv) + 1]
+            cand = [k for k in cand if dlo <= k <= dhi]
+            v = rng.choice(cand) if cand else None
+        elif r < 0.65 and dt in EXTREMES:
+            v = rng.choice(EXTREMES[dt])
+        out.append(rng.randint(lo, hi) if v is None else int(v))
+    return out
+
+
+def gen_dtype_disc_case(rng, dt=None, narrow=False):
+    """data stored as dt; thresholds mostly NOT representable in dt (k+1/2, k+1/4, -1/2 for unsigned, 0.1 for float32).
+    narrow=True: comparative_discretise with the comparison values stored in the SAME dtype as the data."""
+    dt = dt or rng.choice(DTYPES)
+    nthr = rng.choice([1, 1, 2, 3])
+    thr = gen_dtype_thresholds(rng, dt, nthr, narrow)
+    tol = rng.choice(["omit", None, 0, 0.0, 0.25, 0.5, 1.0, 1, 2.0, 2])
+    tv = 0.0 if tol in ("omit", None) else float(tol)
+    data = gen_dtype_values(rng, dt, rng.randint(1, 6), thr, tv)
+    kind = rng.choice(["str", "op"])
+    name = rng.choice(list(COMPL))
+    mode = {"k": "str", "v": OP2STR[name]} if kind == "str" else {"k": "op", "v": name}
+    c = {"fn": "comparative" if narrow else rng.choice(["comparative", "binary", "binary"]), "data": data, "comp": thr,
+         "mode": mode, "tol": tol, "scalar": (not narrow) and nthr == 1 and rng.random() < 0.4, "malformed": None,
+         "dtype": dt, "int_thr": rng.random() < 0.5, "int_scalar": rng.random() < 0.5}
+    if narrow:
+        c["cdtype"] = dt
+    return c
+
+
+def narrow_arith_trigger(c):
+    """N-C08-2 (notes/C08.md): data and comparison stored in the SAME integer / bool dtype -> `data - comparison` and
+    `comparison + abs_tolerance * factor` are evaluated in that dtype inside comparative_discretise.  Returns the kind
+    of out-of-range intermediate this case contains (else None): only such cases carry the defect tag."""
+    cd = c.get("cdtype")
+    if not cd or cd != c.get("dtype") or c["fn"] != "comparative" or c["scalar"] or cd not in DT_LIMITS:
+        return None
+    rel, tol = rel_of(c["mode"]), c["tol"]
+    if cd == "bool":
+        return "bool-subtract" if rel in ("eq", "ne") else None
+    lo, hi = DT_LIMITS[cd]
+    if rel in ("eq", "ne"):
+        dmin = 0 if lo == 0 else -hi          # |lo| itself is not representable: abs(lo) == lo
+        if any(not (dmin <= x - t <= hi) for x in c["data"] for t in c["comp"]):
+            return "difference-out-of-range"
+        return None
+    if isinstance(tol, int) and not isinstance(tol, bool) and tol != 0:
+        sh = tol * (-1 if rel in ("ge", "lt") else 1)
+        if not lo <= sh <= hi:
+            return "tolerance-out-of-range"
+        if any(not (lo <= t + sh <= hi) for t in c["comp"]):
+            return "threshold-plus-tolerance-out-of-range"
+    return None
+
+
+def narrow_witness_cases():
+    """the reproductions of notes/C08.md N-C08-2, every run (so the finding is reproduced, or reported as gone, deterministically)"""
+    def mk(dt, data, comp, name, tol):
+        return {"fn": "comparative", "data": data, "comp": [float(t) for t in comp], "mode": {"k": "str", "v": OP2STR[name]},
+                "tol": tol, "scalar": False, "malformed": None, "dtype": dt, "cdtype": dt}
+    return [mk("uint8", [0], [1], "eq", 1), mk("int8", [-128], [0], "eq", "omit"), mk("uint8", [3], [255], "gt", 1),
+            mk("uint8", [3], [2], "ge", 1), mk("bool", [1, 0], [1, 1], "eq", "omit"),
+            # the same numbers where no intermediate leaves the dtype: must pass
+            mk("uint8", [1], [0], "eq", 1), mk("int8", [-127], [0], "eq", "omit"), mk("uint8", [3], [2], "ge", 1.0),
+            mk("bool", [1, 0], [1, 1], "ge", "omit")]
+
+
+def rounding_sensitive(c):
+    """a pair whose exact |x - c| differs from the tolerance by less than float64 can resolve (never generated on purpose)"""
+    tol = c["tol"]
+    tv = core.Fraction(0) if tol in ("omit", None) else core.Fraction(tol)
+    for x in c["data"]:
+        for t in c["comp"]:
+            if isinstance(x, float) and (math.isnan(x) or math.isinf(x)) or isinstance(t, float) and (math.isnan(t) or math.isinf(t)):
+                continue
+            gap = abs(abs(core.Fraction(x) - core.Fraction(t)) - tv)
+            if 0 < gap < core.Fraction(1, 10 ** 12):
+                return True
+    return False
+
+
+def dtype_grid_cases():
+    """every dtype x 12 spellings x tolerance {none, 1/4}: fixed data around the thresholds -1/2, 1/2, 5/2 (0.1, 0.3 for float32)"""
+    out = []
+    fixed = {"int64": [-1, 0, 1, 2, 3, 7], "int32": [-1, 0, 1, 2, 3, 7], "int8": [-128, -1, 0, 1, 2, 3, 127],
+             "uint8": [0, 1, 2, 3, 255], "bool": [0, 1],
+             "float32": [0.0, f32(0.1), f32_next(0.1, False), 0.25, f32(0.3), f32_next(0.3, True), 0.5, NAN]}
+    for dt in DTYPES:
+        thr = [0.1, 0.3, 0.5] if dt == "float32" else [-0.5, 0.5, 2.5]
+        for name in COMPL:
+            for kind in ("str", "op"):
+                for tol in ("omit", 0.25):
+                    mode = {"k": "str", "v": OP2STR[name]} if kind == "str" else {"k": "op", "v": name}
+                    out.append({"fn": "binary", "data": fixed[dt], "comp": thr, "mode": mode, "tol": tol, "scalar": False,
+                                "malformed": None, "dtype": dt})
+    return out
+
+
+def holds_exact(rel, x, c, t):
+    return holds(rel, core.Fraction(x), core.Fraction(c), core.Fraction(t))
+
+
+def expected_proportion_exact(rows, thresholds, rel, tv, red):
+    """share of the non-NaN VALUES in the event category (exact rationals), per kept index and threshold"""
+    nx, ny, nt = len(rows), len(rows[0]), len(thresholds)
+    disc = np.full((nx, ny, nt), np.nan)
+    for i in range(nx):
+        for j in range(ny):
+            v = rows[i][j]
+            if isinstance(v, float) and math.isnan(v):
+                continue
+            for k, t in enumerate(thresholds):
+                disc[i, j, k] = 1.0 if holds_exact(rel, v, t, tv) else 0.0
+    axes = (0, 1)
+    if isinstance(red, list):
+        axes = (0,) if red[0] == "x" else (1,)
+    import warnings
+    with np.errstate(all="ignore"), warnings.catch_warnings():
+        warnings.simplefilter("ignore")
+        return np.nanmean(disc, axis=axes)
+
+
+def run_proportion_dtype(desc):
+    """binary_discretise_proportion / proportion_exceeding on data stored as desc['dtype']; returns ('ok', array) | ('err', class)"""
+    from scores.processing import binary_discretise_proportion
+    from scores.processing.discretise import proportion_exceeding
+    da = xr.DataArray(np.array(desc["data"], dtype=desc["dtype"]), dims=[fresh("x"), fresh("y")])
+    red = desc["reduce_dims"]
+    red = [fresh(r) for r in red] if isinstance(red, list) else red
+    thr = [int(t) if (desc.get("int_thr") and float(t).is_integer()) else t for t in desc["thresholds"]]
+    try:
+        with np.errstate(all="ignore"):
+            if desc["pfn"] == "proportion_exceeding":
+                out = proportion_exceeding(da, thr, reduce_dims=red)
+            else:
+                kw = {} if desc["tol"] == "omit" else {"abs_tolerance": desc["tol"]}
+                out = binary_discretise_proportion(da, thr, py_mode(desc["mode"]), reduce_dims=red, **kw)
+        return ("ok", np.asarray(out.transpose(*[d for d in ("x", "y", "threshold") if d in out.dims]).values, dtype=float))
+    except Exception as ex:  # noqa: BLE001
+        return ("err", core.exc_class(ex) + ": " + str(ex)[:100])
+
+
+def check_proportion_dtype(ctx, batch, desc):
+    """True iff the proportion of `desc` equals the share counted on the exact values"""
+    if desc["pfn"] == "proportion_exceeding":
+        rel, tv = "ge", 0.0
+    else:
+        rel = rel_of(desc["mode"])
+        tv = 0.0 if desc["tol"] in ("omit", None) else float(desc["tol"])
+    tags = {"rel": rel, "dtype": desc["dtype"], "fn": desc["pfn"]}
+    got = run_proportion_dtype(desc)
+    site = "processing." + desc["pfn"]
+    if got[0] != "ok":
+        ctx.fail(batch, "property", site, "exception", desc, observed=got[1], expected="proportions", tags=tags)
+        return False
+    exp = expected_proportion_exact(desc["data"], desc["thresholds"], rel, tv, desc["reduce_dims"])
+    if got[1].shape != exp.shape or not all(core.close_ff(a, b) for a, b in zip(got[1].ravel(), exp.ravel())):
+        ctx.fail(batch, "property", site, "proportion", desc, observed=got[1].tolist(), expected=exp.tolist(), tags=tags,
+                 theorem="proportion_eq_share")
+        return False
+    return True
+
+
+def gen_table_case_dtype(rng):
+    """forecast / observation stored as int64, int32, int8, uint8, bool, float32 (one of them possibly float64); event
+    thresholds mostly not representable in the dtype.  float32 data stay dyadic: with a Python-float threshold numpy
+    compares a float32 array in float32 (documented weak-scalar promotion of the caller's own `op_fn(fcst, threshold)`),
+    which classifies every dyadic value exactly as the float64 comparison does (notes/C08.md N-C08-3)."""
+    fdt = rng.choice(DTYPES)
+    odt = rng.choice(DTYPES + ["float64", fdt, fdt])
+    if rng.random() < 0.15:
+        fdt, odt = "float64", fdt
+    na, nb = rng.choice([1, 2, 3]), rng.choice([1, 2, 3, 4])
+    both_bool = {fdt, odt} <= {"bool"}
+    thr = rng.choice([0.5, 0.5, -0.5, 0.25, 0, 1, 1.0, 0.0] if both_bool else
+                     [0.5, 0.5, 2.5, -0.5, 0.1, 0.25, 1.5, 0, 0.0, 1, -1, -1.0, 2, 300, -300])
+
+    def vals(dt, n):
+        if dt in ("float32", "float64"):
+            return [NAN if rng.random() < 0.2 else (float(thr) if rng.random() < 0.2 and (float(thr) * 4).is_integer()
+                                                    else core.dyadic(rng, -3, 3)) for _ in range(n)]
+        return gen_dtype_values(rng, dt, n, [float(thr)], 0.0)
+    f = [vals(fdt, nb) for _ in range(na)]
+    obs_1d = rng.random() < 0.2
+    o = vals(odt, nb) if obs_1d else [vals(odt, nb) for _ in range(na)]
+    op = rng.choice([None, "ge", "gt", "le", "lt", "ge", "gt", "eq", "ne"])
+    use_thr = rng.random() < 0.85
+    custom = rng.random() < 0.3
+    dthr = rng.choice([0.5, -1.0, 0.0, 2, 2.5]) if custom else 0.001
+    dop = rng.choice(["gt", "le", "lt"]) if custom else "ge"
+    c = {"f": f, "o": o, "obs_1d": obs_1d, "thr": thr if use_thr else None, "op": op, "dthr": dthr, "dop": dop, "custom": custom}
+    if fdt != "float64":
+        c["fdtype"] = fdt
+    if odt != "float64":
+        c["odtype"] = odt
+    return c
+
+
+def check_events_dtype(ctx, batch, desc, spec):
+    """BinaryContingencyManager built directly from 0/1 event arrays stored as desc['edtype'] vs the direct count"""
+    from scores.categorical import BinaryContingencyManager
+    f, o, dt = desc["fcst_events"], desc["obs_events"], desc["edtype"]
+    tags = {"dtype": dt}
+    try:
+        with np.errstate(all="ignore"):
+            man = BinaryContingencyManager(xr.DataArray(np.array(f, dtype=dt), dims=[fresh("k")]),
+                                           xr.DataArray(np.array(o, dtype=dt), dims=[fresh("k")]))
+            cd = {k: float(v) for k, v in counts_of(man).items()}
+            maps = {k: np.asarray(getattr(man, k).values, dtype=float).tolist() for k in ("tp", "tn", "fp", "fn")}
+    except Exception as ex:  # noqa: BLE001
+        ctx.fail(batch, "property", "BinaryContingencyManager", "exception", desc, observed=core.exc_class(ex) + ": " + str(ex)[:100],
+                 expected="a contingency manager", tags=tags)
+        return False
+    exp = {"tp": 0, "tn": 0, "fp": 0, "fn": 0, "total": 0}
+    ok = True
+    for i, (a, b) in enumerate(zip(f, o)):
+        cells = [maps[k][i] for k in ("tp", "tn", "fp", "fn")]
+        if a != a or b != b:
+            good = all(math.isnan(x) for x in cells)
+        else:
+            exp["total"] += 1
+            cell = "tp" if a == 1 and b == 1 else "tn" if a == 0 and b == 0 else "fp" if a == 1 else "fn"
+            exp[cell] += 1
+            good = cells == [1.0 if k == cell else 0.0 for k in ("tp", "tn", "fp", "fn")]
+        if not good and ok:
+            ok = False
+            ctx.fail(batch, "property", "BinaryContingencyManager.maps", "maps-not-a-partition", desc,
+                     observed={"index": i, "cells": cells}, expected="exactly the pair's own cell is 1 (all NaN on an invalid pair)",
+                     tags=tags, theorem="maps_partition")
+    if any(cd[k] != exp[k] for k in exp) or (spec is not None and any(not core.close(cd[k], spec[k] if isinstance(spec[k], str) else core.Fraction(spec[k]), 0, 0) for k in exp)):
+        ok = False
+        ctx.fail(batch, "property", "BinaryContingencyManager.counts", "direct-count", desc, observed=cd,
+                 expected=exp if spec is None else {k: spec[k] for k in exp}, tags=tags, theorem="threshold_counts_eq_direct")
+    return ok
+
+
+def events_spec_op(desc):
+    """0/1 events: the event is 'value > 1/2' (direct count in the Lean spec)"""
+    return {"op": "c08.countspec", "args": {"fcst": fls(desc["fcst_events"]), "obs": fls(desc["obs_events"]), "thr": "1/2", "op": "gt"}}
+
 
 
 # ----------------------------------------------------------------------------- checks on one case
 def check_table_against(ctx, batch, kind, case, res, model, spec=False):
     """compare the implementation's events / maps / counts with `model` (driver table or direct-count spec)"""
     tags = table_tags(case)
-    desc = {k: case[k] for k in ("f", "o", "obs_1d", "thr", "op", "dthr", "dop", "custom")}
+    desc = table_desc(case)
     if isinstance(res, tuple):
         ctx.fail(batch, kind, "ThresholdEventOperator.make_contingency_manager", "exception", desc,
                  observed=res[1], expected="a contingency manager", tags=tags)
@@ -422,7 +757,7 @@ def check_table_relations(ctx, batch, case, res):
     if isinstance(res, tuple):
         return
     tags = table_tags(case)
-    desc = {k: case[k] for k in ("f", "o", "obs_1d", "thr", "op", "dthr", "dop", "custom")}
+    desc = table_desc(case)
     c = res["counts"]
     ff, oo = flat_pairs(case["f"], case["o"], case["obs_1d"])
     nvalid = sum(1 for a, b in zip(ff, oo) if not (math.isnan(a) or math.isnan(b)))
@@ -484,15 +819,24 @@ def correspondence(ctx):
                 cases.append({"fn": "comparative", "data": grid, "comp": [0.0, 0.25, NAN, math.inf], "mode": mode, "tol": tol,
                               "scalar": False, "malformed": None})
     ctx.exhaustive.append("12 mode spellings x tolerance {none, 1/4, 1/2} x 12 data values x 4 comparison values")
+    # storage dtype of the data: the model value of an int64 / float32 7 is the number 7
+    for _ in range(ctx.n(120, 1200)):
+        cases.append(gen_dtype_disc_case(rng))
     model = core.run_driver("C08", [disc_driver_op(c) for c in cases])
     for c, m in zip(cases, model):
         res = run_disc_case(c)
-        desc = {k: c[k] for k in ("fn", "data", "comp", "mode", "tol", "scalar")}
+        desc = disc_desc(c)
         ctx.case("discretise-vs-translated-chain", desc, nontrivial=c["malformed"] is None and res[0] == "ok")
         ctx.tag("malformed:" + str(c["malformed"]) if c["malformed"] else "mode:" + str(rel_of(c["mode"])) + ":" + c["mode"]["k"])
+        if c.get("dtype"):
+            ctx.tag("corr-dtype:" + c["dtype"])
+            if c["dtype"] == "float32" and rounding_sensitive(c):
+                ctx.tag("rounding-sensitive-skipped")
+                continue
         if not disc_result_matches(res, m):
             ctx.fail("discretise-vs-translated-chain", "correspondence", "processing." + c["fn"] + "_discretise", "value",
-                     desc, observed=res, expected=m, tags={"mode": str(c["mode"].get("v")), "malformed": str(c["malformed"])})
+                     desc, observed=res, expected=m, tags={"mode": str(c["mode"].get("v")), "malformed": str(c["malformed"]),
+                                                            "dtype": c.get("dtype", "float64")})
     # C: proportion
     from scores.processing import binary_discretise_proportion
     pcs, pops = [], []
@@ -502,12 +846,19 @@ def correspondence(ctx):
         if rng.random() < 0.15:
             c["data"] = [NAN] * len(c["data"])
         pcs.append(c)
+    for _ in range(ctx.n(40, 400)):
+        c = gen_dtype_disc_case(rng)
+        c["fn"] = "binary"
+        if c["dtype"] == "float32" and rounding_sensitive(c):
+            continue
+        pcs.append(c)
+    for c in pcs:
         tol = c["tol"]
         pops.append({"op": "c08.prop", "args": {"data": fls(c["data"]), "thresholds": fls(c["comp"]), "mode": c["mode"],
                                                 "tol": None if tol in ("omit", None) else core.fl_str(tol)}})
     pm = core.run_driver("C08", pops)
     for c, m in zip(pcs, pm):
-        d = xr.DataArray(np.array(c["data"], dtype=float), dims=[fresh("x")])
+        d = xr.DataArray(np.array(c["data"], dtype=c.get("dtype") or float), dims=[fresh("x")])
         kw = {} if c["tol"] == "omit" else {"abs_tolerance": c["tol"]}
         try:
             with np.errstate(all="ignore"):
@@ -515,7 +866,7 @@ def correspondence(ctx):
             got = ("ok", np.asarray(out.values, dtype=float).ravel().tolist())
         except Exception as ex:  # noqa: BLE001
             got = ("err", core.exc_class(ex))
-        desc = {k: c[k] for k in ("data", "comp", "mode", "tol")}
+        desc = {k: c[k] for k in ("data", "comp", "mode", "tol") + (("dtype",) if c.get("dtype") else ())}
         ctx.case("proportion-vs-model", desc)
         good = ("ok" in m and got[0] == "ok" and len(got[1]) == len(m["ok"]) and all(core.close(a, b) for a, b in zip(got[1], m["ok"]))) \
             or ("err" in m and got == ("err", m["err"]))
@@ -524,10 +875,11 @@ def correspondence(ctx):
                      observed=got, expected=m, tags={"mode": str(c["mode"].get("v"))})
     # D: ThresholdEventOperator -> events, maps, counts vs translated events + translated maps + nansum
     tcs = [gen_table_case(rng) for _ in range(ctx.n(150, 3000))]
+    tcs += [gen_table_case_dtype(rng) for _ in range(ctx.n(50, 600))]
     tm = core.run_driver("C08", [table_driver_op(c) for c in tcs])
     for c, m in zip(tcs, tm):
         res = run_table_case(c)
-        ctx.case("event-operator-vs-translated-model", {k: c[k] for k in ("f", "o", "obs_1d", "thr", "op", "dthr", "dop")})
+        ctx.case("event-operator-vs-translated-model", table_desc(c))
         ctx.tag("thr:" + table_tags(c)["thr"])
         check_table_against(ctx, "event-operator-vs-translated-model", "correspondence", c, res, m)
     # E: BinaryContingencyManager on event arrays (incl. non-binary values) vs translated maps + nansum
@@ -559,11 +911,19 @@ def correspondence(ctx):
 # ----------------------------------------------------------------------------- the property itself
 def oracle_disc_case(ctx, batch, c, spec_rows, res=None):
     """implementation vs the hand-written definition (Lean Spec), complement law, spelling law"""
-    desc = {k: c[k] for k in ("fn", "data", "comp", "mode", "tol", "scalar")}
+    desc = disc_desc(c)
     rel = rel_of(c["mode"])
     tags = {"mode": str(c["mode"]["v"]), "rel": rel, "fn": c["fn"]}
     if any(math.isinf(v) for v in list(c["data"]) + list(c["comp"])):
         tags["infinite"] = "yes"
+    if c.get("dtype"):
+        tags["dtype"] = c["dtype"]
+        if c.get("cdtype"):
+            tags["comparison_dtype"] = c["cdtype"]
+        trig = narrow_arith_trigger(c)
+        if trig:
+            tags["defect"] = "N-C08-2"
+            tags["narrow"] = trig
     res = res or run_disc_case(c)
     site = "processing." + c["fn"] + "_discretise"
     if res[0] != "ok":
@@ -645,12 +1005,29 @@ def oracle(ctx, boost):
                 cases.append({"fn": "binary", "data": grid, "comp": [-0.5, 0.0, 0.0, 0.25], "mode": mode, "tol": tol,
                               "scalar": False, "malformed": None})
     ctx.exhaustive.append("oracle: 12 spellings x 5 tolerances x 17 data values k/4 in [-2,2] + NaN x 4 thresholds, both functions")
+    # storage dtype of the data (int64, int32, int8, uint8, bool, float32): the classification is the one of the VALUES
+    for _ in range(ctx.n(260, 3000) * mult):
+        cases.append(gen_dtype_disc_case(rng))
+    cases += dtype_grid_cases()
+    ctx.exhaustive.append("oracle: 6 storage dtypes x 12 spellings x tolerance {none, 1/4} x fixed data incl. the dtype's extremes x "
+                          "thresholds {-1/2, 1/2, 5/2} ({0.1, 0.3, 1/2} and their float32 neighbours for float32), binary_discretise")
+    # comparison stored in the same (narrow) dtype as the data: out-of-range intermediates are N-C08-2 (tagged)
+    for _ in range(ctx.n(60, 600) * mult):
+        cases.append(gen_dtype_disc_case(rng, dt=rng.choice(["int64", "int32", "int8", "uint8", "bool"]), narrow=True))
+    cases += narrow_witness_cases()
     spec = core.run_driver("C08S", [spec_op(c) for c in cases])
     for c, s in zip(cases, spec):
-        ctx.case("discretise-vs-definition", {k: c[k] for k in ("fn", "data", "comp", "mode", "tol", "scalar")})
+        batch = "discretise-vs-definition"
+        if c.get("dtype"):
+            batch = "discretise-same-dtype-comparison" if c.get("cdtype") else "discretise-storage-dtype"
+            ctx.tag("oracle-dtype:" + c["dtype"] + (":same-dtype-comparison" if c.get("cdtype") else ""))
+            if c["dtype"] == "float32" and rounding_sensitive(c):
+                ctx.tag("rounding-sensitive-skipped")
+                continue
+        ctx.case(batch, disc_desc(c))
         if any(math.isinf(v) for v in list(c["data"]) + list(c["comp"])):
             ctx.tag("oracle-disc:infinite")
-        oracle_disc_case(ctx, "discretise-vs-definition", c, s)
+        oracle_disc_case(ctx, batch, c, s)
     # 2. proportion = share of valid data in the event category
     from scores.processing import binary_discretise_proportion
     for _ in range(ctx.n(60, 1000) * mult):
@@ -675,8 +1052,24 @@ def oracle(ctx, boost):
         if got.shape != exp.shape or not all(core.close_ff(a, b) for a, b in zip(got.ravel(), exp.ravel())):
             ctx.fail("proportion-is-share", "property", "processing.binary_discretise_proportion", "proportion", desc,
                      observed=got.tolist(), expected=exp.tolist(), tags={"rel": rel}, theorem="proportion_eq_share")
+    # 2b. the same on data stored as int / bool / float32 (binary_discretise_proportion and proportion_exceeding)
+    for _ in range(ctx.n(90, 1000) * mult):
+        c = gen_dtype_disc_case(rng)
+        if c["dtype"] == "float32" and rounding_sensitive(c):
+            continue
+        ny = rng.randint(1, 3)
+        rows = [[rng.choice(c["data"]) for _ in range(ny)] for _ in c["data"]]
+        red = rng.choice([None, ["y"], ["x"], "all"])
+        desc = {"data": rows, "thresholds": c["comp"], "mode": c["mode"], "tol": c["tol"], "reduce_dims": red, "dtype": c["dtype"],
+                "int_thr": c["int_thr"], "pfn": rng.choice(["binary_discretise_proportion", "binary_discretise_proportion",
+                                                            "proportion_exceeding"])}
+        ctx.case("proportion-storage-dtype", desc)
+        ctx.tag("oracle-proportion-dtype:" + c["dtype"])
+        check_proportion_dtype(ctx, "proportion-storage-dtype", desc)
     # 3. contingency counts of a threshold event operator: direct counting (Lean Spec + Python), partition, additivity
     tcs = [gen_table_case(rng) for _ in range(ctx.n(150, 3000) * mult)]
+    # forecasts / observations stored as int64, int32, int8, uint8, bool, float32
+    tcs += [gen_table_case_dtype(rng) for _ in range(ctx.n(110, 1200) * mult)]
     # thresholds 0 and negative with every operator, explicitly
     for thr in (0, 0.0, -1.0, -0.25):
         for op in ("ge", "gt", "le", "lt", "eq", "ne", None):
@@ -684,13 +1077,28 @@ def oracle(ctx, boost):
             c.update({"thr": thr, "op": op})
             c["f"][0][0] = float(thr)
             tcs.append(c)
-    spec = core.run_driver("C08S", [spec_driver_op(c) for c in tcs])
+    # 4. BinaryContingencyManager on 0/1 event arrays stored as bool / integers / float32
+    ecs = []
+    for _ in range(ctx.n(40, 400) * mult):
+        dt = rng.choice(DTYPES)
+        n = rng.randint(1, 8)
+        pool = [0, 1] if dt != "float32" else [0.0, 1.0, 0.0, 1.0, NAN]
+        ecs.append({"fcst_events": [rng.choice(pool) for _ in range(n)], "obs_events": [rng.choice(pool) for _ in range(n)],
+                    "edtype": dt})
+    spec = core.run_driver("C08S", [spec_driver_op(c) for c in tcs] + [events_spec_op(d) for d in ecs])
     for c, s in zip(tcs, spec):
-        ctx.case("event-operator-vs-direct-count", {k: c[k] for k in ("f", "o", "obs_1d", "thr", "op", "dthr", "dop")})
+        batch = "event-operator-storage-dtype" if (c.get("fdtype") or c.get("odtype")) else "event-operator-vs-direct-count"
+        ctx.case(batch, table_desc(c))
         ctx.tag("oracle-thr:" + table_tags(c)["thr"])
+        if batch == "event-operator-storage-dtype":
+            ctx.tag("oracle-table-dtype:" + (c.get("fdtype") or "float64"))
         res = run_table_case(c)
-        check_table_against(ctx, "event-operator-vs-direct-count", "property", c, res, s, spec=True)
-        check_table_relations(ctx, "event-operator-vs-direct-count", c, res)
+        check_table_against(ctx, batch, "property", c, res, s, spec=True)
+        check_table_relations(ctx, batch, c, res)
+    for d, s in zip(ecs, spec[len(tcs):]):
+        ctx.case("binary-manager-storage-dtype", d)
+        ctx.tag("oracle-events-dtype:" + d["edtype"])
+        check_events_dtype(ctx, "binary-manager-storage-dtype", d, s)
 
 
 def holds(rel, x, c, t):
@@ -743,6 +1151,11 @@ def replay(ctx, payload):
         check_table_against(ctx2, "replay", "property", c, res, s, spec=True)
         check_table_relations(ctx2, "replay", c, res)
         return bool(ctx2.failures)
+    if "fcst_events" in case and "edtype" in case:
+        d = {k: unfl(v) for k, v in case.items()}
+        return not check_events_dtype(ctx2, "replay", d, core.run_driver("C08S", [events_spec_op(d)])[0])
+    if "thresholds" in case and "pfn" in case:
+        return not check_proportion_dtype(ctx2, "replay", {k: unfl(v) for k, v in case.items()})
     if "thresholds" in case:
         from scores.processing import binary_discretise_proportion
         arr = np.array(unfl(case["data"]), dtype=float)
